@@ -254,6 +254,13 @@ func genQuery(rt *rapid.T, maxWords int) string {
 		}
 		ws = append(ws, w)
 	}
+	if rapid.IntRange(0, 39).Draw(rt, "qpad") == 20 {
+		// a long-winded request: more than 1000 bytes, yet the same few content words (only the command line's
+		// validator bounds the length; the engine's entry points take any string)
+		pad := strings.TrimSpace(strings.Repeat(rapid.SampledFrom([]string{"the and of ", "to   a ", "--- , . ", "how to the "}).Draw(rt, "qpadw"), 130))
+		at := rapid.IntRange(0, len(ws)).Draw(rt, "qpadat")
+		ws = append(ws[:at:at], append([]string{pad}, ws[at:]...)...)
+	}
 	return strings.Join(ws, " ")
 }
 
